@@ -1,7 +1,7 @@
 (* C15 (part 3): assembly peephole rewrites preserve results (model C15/Peephole.v, tied to
    vyper/evm/assembler/optimizer.py by exact output equality on generated and compiled assemblies). *)
 From Coq Require Import ZArith List String Lia.
-From Verif Require Import Base.Word256 Base.PyInt C15.Peephole C15.PeepholeSound C15.JumpOpt C15.JumpSem C15.JumpSound C15.JumpSound2.
+From Verif Require Import Base.Word256 Base.PyInt C15.Peephole C15.PeepholeSound C15.JumpOpt C15.JumpSem C15.JumpSound C15.JumpSound2 C15.JumpSound3.
 Import ListNotations.
 Open Scope Z_scope.
 
@@ -61,6 +61,31 @@ Theorem prune_unused_jumpdests_sound_thm :
 Proof. exact prune_unused_jumpdests_sound. Qed.
 Print Assumptions merge_jumpdests_sound_thm.
 Print Assumptions prune_unused_jumpdests_sound_thm.
+
+(* optimize_assembly (the fixpoint loop over all seven passes, model JumpOpt.optimize_assembly): whenever the
+   assembly halts -- started at its beginning on a stack without label values -- the optimised assembly halts with the
+   same halting instruction and the same observable stack.  Hypotheses on the uninterpreted instructions: CALL-like
+   members of _RETURNS_ZERO_OR_ONE leave 0/1; label names are not inspected; label values come from the stack or the
+   instruction; POP DUP1 DUP2 SWAP1 SWAP2 as in the EVM, every SWAP* is an involution, commutative opcodes commute;
+   labels are unique.  [hypotheses_satisfiable] exhibits an instruction semantics meeting all of them. *)
+Theorem optimize_assembly_sound_thm :
+  forall (other : item -> lstack -> option lstack),
+  (forall o st st', is_ret01 (Op o) = true -> String.eqb o "ISZERO" = false ->
+     other (Op o) st = Some st' -> exists v t, st' = SV v :: t /\ (v = 0 \/ v = 1)) ->
+  (forall x y it st, other it (rs x y st) = option_map (rs x y) (other it st)) ->
+  (forall it st st' l, other it st = Some st' -> In (SL l) st' -> In (SL l) st \/ uses l it = true) ->
+  (forall st, other (Op "POP") st = match st with _ :: t => Some t | [] => None end) ->
+  (forall st, other (Op "DUP1") st = match st with a :: t => Some (a :: a :: t) | [] => None end) ->
+  (forall st, other (Op "DUP2") st = match st with a :: b :: t => Some (b :: a :: b :: t) | _ => None end) ->
+  (forall st, other (Op "SWAP1") st = lswap 0 st) -> (forall st, other (Op "SWAP2") st = lswap 1 st) ->
+  (forall o st st', String.prefix "SWAP" o = true -> other (Op o) st = Some st' -> other (Op o) st' = Some st) ->
+  (forall o a b t, is_comm (Op o) = true -> other (Op o) (a :: b :: t) = other (Op o) (b :: a :: t)) ->
+  forall l out, NoDup (labels l) -> optimize_assembly l = Ok out -> sound_rel other l out.
+Proof. exact optimize_assembly_sound_full. Qed.
+Print Assumptions optimize_assembly_sound_thm.
+Example optimize_assembly_hypotheses_satisfiable :
+  forall l out, NoDup (labels l) -> optimize_assembly l = Ok out -> sound_rel other_inst l out.
+Proof. exact hypotheses_satisfiable. Qed.
 
 Example peephole_nonvacuous :
   stack_peephole [Op "DUP1"; Op "SWAP2"; Op "SWAP1"; Op "SWAP3"; Op "SWAP3"; Op "SWAP1"; Op "ADD"; Op "POP"]
